@@ -44,7 +44,8 @@ func (m msgServer) CreateHTLC(
 		return nil, err
 	}
 
-	if m.k.blockedAddrs[msg.To] {
+	// look the recipient up by its canonical spelling: bech32 also accepts the all-upper-case form
+	if m.k.blockedAddrs[to.String()] {
 		return nil, errorsmod.Wrapf(sdkerrors.ErrUnauthorized, "%s is a module account", msg.To)
 	}
 	// the escrow account itself must not be a recipient either: a claim would pay the escrow
